@@ -118,23 +118,53 @@ DeliverTx(p, t) ==
                           /\ UNCHANGED active
 
 (* ---- the miner (mining.py) ---- *)
-MinerRequest(cand) ==      \* handle_request_scrypt_input_message: snapshot of (state, pool), candidate on the head
-  /\ miner' = [snap |-> CS, cand |-> cand]
+(* construct_block_pow_evidence_input on a chain-state value c with pending transactions p: reward = subsidy + fees to the   *)
+(* miner's key, timestamp = max(now, parent + 1), target as prescribed; the nonce search is abstracted (a found block has     *)
+(* an id below target and the evidence the miner computed for it)                                                             *)
+Max(a, b) == IF a > b THEN a ELSE b
+Candidate(c, p, now, key, bid, tid) ==
+  LET pb == c.blocks[c.head]
+      h  == pb.height + 1
+      ts == Max(now, pb.ts + 1)
+      et == ExpectedTarget(c.blocks, c.byHeight, c.head, ts)
+      fs == FeeSum(c.utxo[c.head], p, 1)
+      cbtx == [id |-> tid, sizeok |-> TRUE,
+               ins |-> << [ref |-> NullRef, kind |-> "cbdata", signer |-> NoKey, cbh |-> h, small |-> TRUE] >>,
+               outs |-> << [v |-> Subsidy(h) + fs.f, k |-> key] >>]
+  IN [id |-> bid, parent |-> c.head, height |-> h, ts |-> ts, target |-> IF et.ok THEN et.t ELSE pb.target,
+      powok |-> TRUE, evok |-> TRUE, merkleok |-> TRUE, sizeok |-> TRUE, txs |-> << cbtx >> \o p]
+
+MinerRequest(now, key, bid, tid) ==      \* handle_request_scrypt_input_message: get_state() under the lock, candidate on that head
+  /\ miner' = [snap |-> CS, cand |-> Candidate(CS, pool, now, key, bid, tid)]
   /\ UNCHANGED << blocks, order, utxo, byHeight, tips, head, lastValid, pool, storeVars, outbox, active >>
+
+FoundOK(now) == /\ miner.cand # << >>
+                /\ FirstFailingOn(miner.snap, miner.cand, now) = "" /\ CanApplyOn(miner.snap, miner.cand)
 
 MinerFound(now) ==         \* handle_scrypt_output_message for a candidate whose id is below target
   LET b == miner.cand
       snap == miner.snap
+      ok == FoundOK(now)
+      n == Stored(snap, b)
+      buf == Append(buffer, SB(b))
+      fl == FlushOf(buf)
   IN /\ miner.cand # << >>
+     /\ miner' = [snap |-> IF ok THEN n ELSE snap, cand |-> << >>]
      /\ IF HandOverBeforeAdd
-        THEN \* set_coinstate(old snapshot); broadcast; then add_block on the miner's private copy; save; flush
-             /\ SetCS(snap) /\ lastValid' = snap
-             /\ pool' = Cleanup(pool, snap.utxo[snap.head])
-        ELSE \* repaired order: validate-and-add on the snapshot, then hand the new state over
-             /\ SetCS(snap) /\ lastValid' = snap /\ pool' = pool       \* (refined in TraceNode by the observed post-state)
-     /\ outbox' = Broadcast(outbox, [t |-> "block", id |-> b.id])
-     /\ UNCHANGED << storeVars, active >>
-     /\ miner' = [snap |-> snap, cand |-> << >>]
+        THEN \* pinned order: set_coinstate(old snapshot); broadcast; only then add_block on the miner's private copy, save, flush
+             /\ SetCS(snap) /\ lastValid' = snap /\ pool' = Cleanup(pool, snap.utxo[snap.head])
+             /\ outbox' = Broadcast(outbox, [t |-> "block", id |-> b.id])
+             /\ IF ok /\ fl.ok THEN chainT' = fl.C /\ locT' = fl.L /\ outT' = fl.O /\ inT' = fl.I /\ buffer' = << >> /\ UNCHANGED txnOpen
+                ELSE UNCHANGED storeVars
+        ELSE IF ok
+        THEN \* repaired order: validate-and-add on the snapshot, hand the new state over, broadcast, save, flush
+             /\ SetCS(n) /\ lastValid' = n /\ pool' = Cleanup(pool, n.utxo[n.head])
+             /\ outbox' = Broadcast(outbox, [t |-> "block", id |-> b.id])
+             /\ IF fl.ok THEN chainT' = fl.C /\ locT' = fl.L /\ outT' = fl.O /\ inT' = fl.I /\ buffer' = << >> /\ UNCHANGED txnOpen
+                ELSE txnOpen' = TRUE /\ buffer' = buf /\ UNCHANGED << chainT, locT, outT, inT >>
+        ELSE \* add_block raised: nothing is handed over, stored or broadcast (and the miner loop ends)
+             UNCHANGED << blocks, order, utxo, byHeight, tips, head, lastValid, pool, storeVars, outbox >>
+     /\ UNCHANGED active
 
 NInit(g, ps) ==
   /\ LInit(g)
